@@ -128,6 +128,30 @@ func (fv *FuncVerifier) libModel(st *State, full string, fn *types.Func, recv *V
 		}
 		fv.nameHeap(st, fv.eng.sc.sliceHeap(types.Typ[types.Uint8]))
 		return nil, true
+	case "time.Now":
+		fv.assumedLib("time: instants are integers on a non-decreasing clock")
+		fv.eng.needTime()
+		tv := fv.havocVal(st, "now", t)
+		prev := "0"
+		if v, ok := st.ghost["$clock"]; ok {
+			prev = v.T
+		}
+		fv.assume(st, "(>= (time.inst "+tv.T+") "+prev+")")
+		st.ghost["$clock"] = Val{T: "(time.inst " + tv.T + ")", Sort: "Int"}
+		return []Val{tv}, true
+	case "(time.Time).Before", "(time.Time).After":
+		a := args()
+		fv.eng.needTime()
+		if full == "(time.Time).Before" {
+			return []Val{{T: "(< (time.inst " + recv.T + ") (time.inst " + a[0].T + "))", Ty: boolT}}, true
+		}
+		return []Val{{T: "(> (time.inst " + recv.T + ") (time.inst " + a[0].T + "))", Ty: boolT}}, true
+	case "(time.Time).Add":
+		a := args()
+		fv.eng.needTime()
+		tv := fv.havocVal(st, "tadd", t)
+		fv.assume(st, "(= (time.inst "+tv.T+") (+ (time.inst "+recv.T+") "+a[0].T+"))")
+		return []Val{tv}, true
 	case "errors.Is":
 		a := args()
 		fv.eng.needErr = true
@@ -212,4 +236,22 @@ func (fv *FuncVerifier) lockModel(st *State, full string, e *ast.CallExpr) []Val
 		return []Val{{T: r, Ty: types.Typ[types.Bool]}}
 	}
 	return nil
+}
+
+func (eng *Engine) needTime() {
+	if _, ok := eng.ufuns["time.inst"]; ok {
+		return
+	}
+	var ts string
+	for _, tp := range eng.allTypes {
+		if tp.Path() == "time" {
+			if o := tp.Scope().Lookup("Time"); o != nil {
+				ts = eng.sc.sortOf(o.Type())
+			}
+		}
+	}
+	if ts == "" {
+		ts = "Int"
+	}
+	eng.ufuns["time.inst"] = &UFun{Name: "time.inst", Args: []string{ts}, Ret: "Int"}
 }
